@@ -1,17 +1,24 @@
 //! pfsim — deterministic simulation harness for pickle-fuzzer (see /verif/DESIGN.md)
 
+mod comp;
 mod desc;
 mod engine;
 mod exec;
 mod hist;
+mod leak;
 mod lexer;
 mod machine;
 mod mix;
 mod optable;
+mod procs;
 mod props;
 mod pycheck;
+mod reach;
 
 use engine::{Tier, Found};
+
+#[global_allocator]
+static GLOBAL: leak::CountingAlloc = leak::CountingAlloc;
 use serde_json::{json, Value};
 
 fn usage() -> ! {
@@ -44,6 +51,14 @@ fn main() {
             run_replay(&args[2])
         }
         "selftest" => run_selftest(),
+        "worker" => {
+            // worker <prop> <tier> <seed> <k> <n> <runs> <skip,csv>
+            let tier = if args[3] == "thorough" { Tier::Thorough } else { Tier::Quick };
+            let p = |i: usize| args.get(i).and_then(|s| s.parse::<u64>().ok()).unwrap_or(0);
+            let skip: Vec<u64> = args.get(8).map(|s| s.split(',').filter_map(|x| x.parse().ok()).collect()).unwrap_or_default();
+            procs::worker_main(&args[2], tier, p(4), p(5), p(6), p(7), &skip)
+        }
+        "exec-scenario" => procs::exec_scenario_main(&args[2], &args[3]),
         _ => usage(),
     };
     std::process::exit(code);
@@ -68,12 +83,144 @@ fn run_check(prop: &str, tier: Tier) -> i32 {
     let seed = engine::verif_seed();
     println!("pfsim check property={} tier={} VERIF_SEED={} threads={}", prop, tier.name(), seed, engine::n_threads());
     match prop {
-        "C01" | "C02" | "C03" | "C04" | "C05" | "C06" | "C08" | "C10" | "C11" | "C15" | "C16" | "C17" => check_solo_family(prop, tier, seed),
+        "C01" | "C02" | "C03" | "C04" | "C05" | "C06" | "C08" | "C14" | "C10" | "C11" | "C15" | "C16" | "C17" => check_solo_family(prop, tier, seed),
+        "C18" => check_c18(tier, seed),
+        "C12" => check_c12(tier, seed),
+        "C09" => check_c09(tier, seed),
         _ => {
             eprintln!("property {} has no check yet", prop);
             2
         }
     }
+}
+
+fn check_c09(tier: Tier, seed: u64) -> i32 {
+    let mut spec = engine::solo_spec("C09").unwrap();
+    if tier == Tier::Thorough {
+        spec.profile.huge_bias = 0.0005;
+    }
+    let known = engine::load_known();
+    let runs = runs_override(match tier { Tier::Quick => spec.runs_quick, Tier::Thorough => spec.runs_thorough });
+    let budget = std::time::Duration::from_secs(match tier { Tier::Quick => 60, Tier::Thorough => 180 });
+    let out = procs::sweep_procs("C09", tier, seed, runs, wall_cap(tier), budget);
+    let mut stats = out.stats;
+    let mut unknown: Vec<Found> = vec![];
+    for f in out.found {
+        if engine::known_match(&known, &f.violation).is_some() {
+            stats.bump(&format!("known.{}", f.violation.class));
+        } else {
+            unknown.push(f);
+        }
+    }
+    let minimise = |f: &Found| -> (Value, bool, Value) {
+        // deaths and hangs can only be re-observed from outside the process: minimise those with the
+        // isolated executor (few steps), everything else in-process
+        let class = f.violation.class.clone();
+        if class.starts_with("process-death") || class == "hang" {
+            return (f.scenario.to_json(), false, json!({"run_index": f.index, "note": "not minimised: needs process isolation"}));
+        }
+        let (m, tries) = engine::minimise("C09", &f.scenario, &class, exec::Trace::Light, false, 2000, 90.0);
+        let still = engine::reproduces("C09", &m, &class, exec::Trace::Light, false);
+        (if still { m.to_json() } else { f.scenario.to_json() }, still, json!({"original": f.scenario.to_json(), "run_index": f.index, "minimiser_executions": tries}))
+    };
+    let (code, nviol) = report_and_exit_code("C09", &unknown, &stats, &known, &minimise, "scenario");
+    stats.add("worker_process_restarts", out.worker_restarts);
+    engine::write_evidence(engine::EvidenceIn {
+        prop: "C09", tier, seed, level: "exploration", rule: spec.rule, stats: &stats, wall_s: out.wall_s, violations: nviol, known: 0,
+        extra: json!({"runs_requested": runs, "enumerated_short_script_runs": engine::enum_count(&spec, tier), "worker_processes": engine::n_threads(), "worker_stack_bytes": 2 << 20,
+            "watchdog_budget_s": budget.as_secs(), "wall_cap_hit": out.capped,
+            "isolation": "each shard runs in its own child process; a death is attributed to the run in flight (BEGIN/END protocol on the pipe); a watchdog kill is confirmed by a solo re-execution in a fresh process before it is called a hang"}),
+        assumptions: vec!["panics are caught with catch_unwind in a build with debug-assertions and overflow-checks; aborts/stack overflows are seen as worker deaths".into(),
+            "generate() without a seed (OS entropy) is outside the replayable space and not used for verdicts".into()],
+        exhaustive: false,
+    });
+    println!("done property=C09 runs={} calls={} distinct_nontrivial={} wall={:.1}s violations={} restarts={}", stats.evaluations, stats.calls, stats.nontrivial.len(), out.wall_s, nviol, out.worker_restarts);
+    code
+}
+
+fn check_c12(tier: Tier, seed: u64) -> i32 {
+    let t0 = std::time::Instant::now();
+    let known = engine::load_known();
+    let out = reach::sweep(tier, seed);
+    let mut stats = out.stats;
+    // distinct non-trivial = distinct (protocol, flags, opcode | frame variant) pairs witnessed
+    for i in 0..out.pairs_seen {
+        stats.nontrivial.insert(i as u64);
+    }
+    let mut unknown = vec![];
+    for (body, v) in &out.violations {
+        if engine::known_match(&known, v).is_some() {
+            stats.bump(&format!("known.{}", v.class));
+        } else {
+            unknown.push((body, v));
+        }
+    }
+    for k in known.iter().filter(|k| k.status == "known" && k.property == "C12") {
+        println!("KNOWN-FINDING: property=C12 class={} {}", k.class, k.what);
+    }
+    let mut code = 0;
+    if let Some((body, v)) = unknown.first() {
+        let path = engine::write_replay("C12", "reach", (*body).clone(), v, true, json!({}));
+        println!("violation class={} detail={}", v.class, v.detail);
+        println!("VIOLATION property=C12 replay={}", path);
+        code = 1;
+    }
+    let wall = t0.elapsed().as_secs_f64();
+    engine::write_evidence(engine::EvidenceIn {
+        prop: "C12", tier, seed, level: "exploration",
+        rule: "sometimes-assertions: rand mode, default settings, seeds 0..S-1 per protocol (second batch with EXT/buffer flags on); early exit once every required opcode was seen in >= 3 pickles and, for P>=4, framed and unframed both seen; evaluations = seeds executed; distinct non-trivial = distinct (protocol, batch, opcode or frame-variant) pairs witnessed",
+        stats: &stats, wall_s: wall, violations: unknown.len(), known: 0,
+        extra: json!({"batches": out.detail, "note": "no fault or schedule is involved in this property; it is decided as reach probes of the simulator (DESIGN §5 C12)"}),
+        assumptions: vec!["required vocabulary = pickletools opcodes with proto <= P (table generated from CPython), EXT*/buffer only in the flags-on batch".into()],
+        exhaustive: false,
+    });
+    println!("done property=C12 seeds={} pairs_witnessed={} wall={:.1}s violations={}", stats.evaluations, out.pairs_seen, wall, unknown.len());
+    code
+}
+
+fn check_c18(tier: Tier, seed: u64) -> i32 {
+    let t0 = std::time::Instant::now();
+    let known = engine::load_known();
+    let (exh, sampled) = match tier {
+        Tier::Quick => (2, runs_override(60_000)),
+        Tier::Thorough => (2, runs_override(3_000_000)),
+    };
+    let out = comp::sweep_c18(seed, exh, sampled);
+    finish_comp("C18", tier, seed, out, &known, t0,
+        "comp scenario: every EntropySource method x argument grid {0,1,2,3,255,256,257,65535,65536,2^32,MAX-1,MAX} x ALL fuzzer scripts of length 0..2 (single draws), plus sampled scripts of length 3..16 at every cut with sequences of 1..6 draws, plus sampled PRNG seeds; non-trivial = the script is shorter than the draws need (short read / exhaustion fired); distinct (case, results)",
+        true)
+}
+
+fn finish_comp(prop: &'static str, tier: Tier, seed: u64, out: comp::CompOutcome, known: &[engine::KnownFinding], t0: std::time::Instant, rule: &str, exhaustive_part: bool) -> i32 {
+    let mut stats = out.stats;
+    let mut unknown: Vec<&comp::Found2> = vec![];
+    for f in &out.found {
+        if engine::known_match(known, &f.violation).is_some() {
+            stats.bump(&format!("known.{}", f.violation.class));
+        } else {
+            unknown.push(f);
+        }
+    }
+    for k in known.iter().filter(|k| k.status == "known" && k.property == prop) {
+        let seen = stats.counters.get(&format!("known.{}", k.class)).copied().unwrap_or(0);
+        println!("KNOWN-FINDING: property={} class={} {} (seen {} times in this run)", prop, k.class, k.what, seen);
+    }
+    let mut code = 0;
+    if let Some(f) = unknown.first() {
+        let path = engine::write_replay(prop, "comp", f.case.clone(), &f.violation, true, json!({"case_index": f.index}));
+        println!("violation class={} case_index={} detail={}", f.violation.class, f.index, f.violation.detail);
+        println!("VIOLATION property={} replay={}", prop, path);
+        code = 1;
+    }
+    let wall = t0.elapsed().as_secs_f64();
+    engine::write_evidence(engine::EvidenceIn {
+        prop, tier, seed, level: "fault_enumeration", rule, stats: &stats, wall_s: wall, violations: unknown.len(), known: 0,
+        extra: json!({"scripts_enumerated_exhaustively_up_to_length": out.exhaustive_upto, "exhaustive_part": exhaustive_part}),
+        assumptions: vec!["the entropy seam is exercised through the two real adapters only (no stub source)".into(), "usize::MAX-sized gen_bytes is excluded: an allocation failure aborts and says nothing about the adapter".into()],
+        exhaustive: false,
+    });
+    println!("done property={} cases={} distinct_nontrivial={} wall={:.1}s violations={}", prop, stats.evaluations, stats.nontrivial.len(), wall, unknown.len());
+    code
 }
 
 pub fn report_and_exit_code(
@@ -110,6 +257,26 @@ fn check_solo_family(prop: &str, tier: Tier, seed: u64) -> i32 {
     let out = engine::sweep_solo(&spec, tier, seed, runs, wall_cap(tier), &known);
     let mut stats = out.stats;
     let found = out.found;
+    // C15 / C16: component-level enumeration of fault points on the entropy reader
+    let mut comp_found: Vec<comp::Found2> = vec![];
+    if prop == "C15" || prop == "C16" {
+        let rounds = runs_override(match tier { Tier::Quick => 6, Tier::Thorough => 200 }).min(match tier { Tier::Quick => 6, Tier::Thorough => 200 });
+        let p: &'static str = if prop == "C15" { "C15" } else { "C16" };
+        let co = comp::sweep_mutators(p, seed, rounds);
+        let mut cs = co.stats;
+        let n_comp = cs.evaluations;
+        cs.evaluations = 0;
+        stats.add("comp.cases_evaluated", n_comp);
+        stats.evaluations += n_comp;
+        stats.merge(cs);
+        for f in co.found {
+            if engine::known_match(&known, &f.violation).is_some() {
+                stats.bump(&format!("known.{}", f.violation.class));
+            } else {
+                comp_found.push(f);
+            }
+        }
+    }
 
     // oracle self-check against CPython on a sample of outputs (pristine) and damaged variants
     let mut py: Vec<(Vec<u8>, bool)> = vec![];
@@ -144,7 +311,16 @@ fn check_solo_family(prop: &str, tier: Tier, seed: u64) -> i32 {
         let body = if still { m.to_json() } else { f.scenario.to_json() };
         (body, still, json!({"original": f.scenario.to_json(), "run_index": f.index, "minimiser_executions": tries}))
     };
-    let (code, nviol) = report_and_exit_code(prop, &found, &stats, &known, &minimise, "scenario");
+    let (mut code, mut nviol) = report_and_exit_code(prop, &found, &stats, &known, &minimise, "scenario");
+    if code == 0 {
+        if let Some(f) = comp_found.first() {
+            let path = engine::write_replay(prop, "comp", f.case.clone(), &f.violation, true, json!({"case_index": f.index}));
+            println!("violation class={} comp_case={} detail={}", f.violation.class, f.index, f.violation.detail);
+            println!("VIOLATION property={} replay={}", prop, path);
+            code = 1;
+            nviol = comp_found.len();
+        }
+    }
     let known_seen: u64 = stats.counters.iter().filter(|(k, _)| k.starts_with("known.")).map(|(_, v)| *v).sum();
     engine::write_evidence(engine::EvidenceIn {
         prop,
@@ -205,9 +381,13 @@ fn run_replay(path: &str) -> i32 {
                 Some(spec) => (engine::trace_for(&spec, &sc), spec.spy),
                 None => (exec::Trace::Light, true),
             };
-            let recs = exec::run_scenario(&sc, trace, spy);
-            let mut st = engine::Stats::default();
-            let vs = engine::evaluate_any(&prop, &sc, &recs, &mut st);
+            let vs = if prop == "C09" {
+                procs::exec_isolated("C09", &sc, std::time::Duration::from_secs(180))
+            } else {
+                let recs = exec::run_scenario(&sc, trace, spy);
+                let mut st = engine::Stats::default();
+                engine::evaluate_any(&prop, &sc, &recs, &mut st)
+            };
             for v in &vs {
                 println!("replayed: class={} detail={}", v.class, v.detail);
             }
@@ -216,6 +396,29 @@ fn run_replay(path: &str) -> i32 {
                 1
             } else {
                 println!("not reproduced: property={} class={} (the tree no longer violates it on this input)", prop, class);
+                0
+            }
+        }
+        "reach" => {
+            let vs = reach::replay(&doc["scenario"]);
+            if vs.iter().any(|v| v.class == class) {
+                println!("VIOLATION property={} replay={}", prop, path);
+                1
+            } else {
+                println!("not reproduced: property={} class={}", prop, class);
+                0
+            }
+        }
+        "comp" => {
+            let vs = comp::replay(&prop, &doc["scenario"]);
+            for v in &vs {
+                println!("replayed: class={} detail={}", v.class, v.detail);
+            }
+            if vs.iter().any(|v| v.class == class) {
+                println!("VIOLATION property={} replay={}", prop, path);
+                1
+            } else {
+                println!("not reproduced: property={} class={}", prop, class);
                 0
             }
         }
